@@ -1,0 +1,112 @@
+//! Verification hooks (only compiled with `--cfg gamedig_verif`).
+//!
+//! Lets a harness install an in-process *virtual network* on the current
+//! thread. While one is installed, `UdpSocketImpl` / `TcpSocketImpl` route
+//! `new`, `send` and `receive` to it instead of the operating system. Without
+//! an installed network the sockets behave exactly as in a normal build.
+//!
+//! Also re-exports crate-private items that the verification harness drives
+//! directly (the packet reader, string decoders, small utilities and the
+//! Minecraft wire codecs).
+
+use crate::protocols::types::TimeoutSettings;
+use crate::GDErrorKind::{PacketReceive, PacketSend, SocketConnect};
+use crate::GDResult;
+use std::cell::RefCell;
+use std::net::SocketAddr;
+
+pub use crate::buffer::{
+    Buffer,
+    BufferRead,
+    StringDecoder,
+    SwitchEndian,
+    Utf16Decoder,
+    Utf8Decoder,
+    Utf8LengthPrefixedDecoder,
+};
+pub use crate::protocols::unreal2::Unreal2StringDecoder;
+pub use crate::socket::{Socket, TcpSocket, UdpSocket};
+pub use crate::utils::{error_by_expected_size, retry_on_timeout, u8_lower_upper};
+
+/// The environment a query runs against when a virtual network is installed.
+pub trait VirtualNet {
+    /// A socket is being created for `address`. `Err` refuses the connection
+    /// (reported as `SocketConnect`).
+    fn open(&mut self, tcp: bool, address: &SocketAddr, timeouts: &Option<TimeoutSettings>) -> Result<u64, String>;
+    /// Bytes handed to the transport. `Err` is reported as `PacketSend`.
+    fn send(&mut self, conn: u64, data: &[u8]) -> Result<(), String>;
+    /// A blocking receive. `Err` is reported as `PacketReceive` (a timeout).
+    /// For UDP the shim truncates the answer to the requested size, as the OS
+    /// does with an oversized datagram.
+    fn receive(&mut self, conn: u64, tcp: bool, size: Option<usize>) -> Result<Vec<u8>, String>;
+}
+
+thread_local! {
+    static NET: RefCell<Option<Box<dyn VirtualNet>>> = const { RefCell::new(None) };
+}
+
+/// Install a virtual network on this thread, returning the previous one.
+pub fn install(net: Box<dyn VirtualNet>) -> Option<Box<dyn VirtualNet>> { NET.with(|n| n.borrow_mut().replace(net)) }
+
+/// Remove (and return) the virtual network of this thread.
+pub fn uninstall() -> Option<Box<dyn VirtualNet>> { NET.with(|n| n.borrow_mut().take()) }
+
+/// Whether a virtual network is installed on this thread.
+pub fn installed() -> bool { NET.with(|n| n.borrow().is_some()) }
+
+fn with_net<T>(f: impl FnOnce(&mut dyn VirtualNet) -> T) -> Option<T> {
+    NET.with(|n| n.borrow_mut().as_mut().map(|net| f(net.as_mut())))
+}
+
+pub(crate) fn open(tcp: bool, address: &SocketAddr, timeouts: &Option<TimeoutSettings>) -> Option<GDResult<u64>> {
+    with_net(|net| {
+        net.open(tcp, address, timeouts)
+            .map_err(|e| SocketConnect.context(e))
+    })
+}
+
+pub(crate) fn send(conn: u64, data: &[u8]) -> GDResult<()> {
+    with_net(|net| net.send(conn, data).map_err(|e| PacketSend.context(e)))
+        .unwrap_or_else(|| Err(PacketSend.context("virtual network was removed")))
+}
+
+pub(crate) fn receive(conn: u64, tcp: bool, size: Option<usize>, default_size: usize) -> GDResult<Vec<u8>> {
+    with_net(|net| {
+        net.receive(conn, tcp, size)
+            .map_err(|e| PacketReceive.context(e))
+    })
+    .unwrap_or_else(|| Err(PacketReceive.context("virtual network was removed")))
+    .map(|mut data| {
+        if !tcp {
+            data.truncate(size.unwrap_or(default_size));
+        }
+        data
+    })
+}
+
+/// One end of a connected stream socket pair, wrapped as a `TcpStream`, so that
+/// the real `apply_timeout` still runs against a real socket object.
+#[cfg(unix)]
+pub(crate) fn stand_in_stream() -> std::io::Result<(std::net::TcpStream, std::os::unix::net::UnixStream)> {
+    use std::os::fd::{FromRawFd, IntoRawFd};
+    let (a, b) = std::os::unix::net::UnixStream::pair()?;
+    // SAFETY: `a` is a freshly created, owned, connected stream socket.
+    let stream = unsafe { std::net::TcpStream::from_raw_fd(a.into_raw_fd()) };
+    Ok((stream, b))
+}
+
+/// Minecraft VarInt / string codecs (crate-private in a normal build).
+pub mod minecraft {
+    use crate::buffer::Buffer;
+    use crate::GDResult;
+    use byteorder::ByteOrder;
+
+    pub fn get_varint<B: ByteOrder>(buffer: &mut Buffer<B>) -> GDResult<i32> {
+        crate::games::minecraft::types::get_varint(buffer)
+    }
+    pub fn as_varint(value: i32) -> Vec<u8> { crate::games::minecraft::types::as_varint(value) }
+    pub fn get_string<B: ByteOrder>(buffer: &mut Buffer<B>) -> GDResult<String> {
+        crate::games::minecraft::types::get_string(buffer)
+    }
+    pub fn as_string(value: &str) -> GDResult<Vec<u8>> { crate::games::minecraft::types::as_string(value) }
+}
